@@ -1,14 +1,14 @@
 (* C10 -- property theorems about the model of the (repaired) KDMixCollator.
    All hold for every batch size, image size, mode combination, probability split and every draw
    sequence satisfying the generator's contract (Spec.trace_ok) and every non-negative half box size. *)
-From Coq Require Import ZArith QArith List Bool Lia Lqa Permutation.
+From Coq Require Import ZArith QArith Qround List Bool Lia Lqa Permutation.
 Import ListNotations.
 From KD Require Import C10.Model C10.Spec C10.Proofs.
 Open Scope Z_scope.
 
 (* image and label of sample i are mixed with the same partner (no contract on the draws needed) *)
 Theorem partner_shared : forall c hv tr r tr',
-  collate c hv tr = Some (r, tr') ->
+  collate c hv tr = Ok (r, tr') ->
   forall ls, labs r = Some ls ->
   forall i, (i < bsz c)%nat -> partner_of (nth i (imgs r) Keep) = Some (fst (nth i ls (0%nat, 0%Q))).
 Proof. exact partner_shared_l. Qed.
@@ -16,7 +16,7 @@ Print Assumptions partner_shared.
 
 (* retained pixel fraction of the image (counted pixel by pixel) = label weight = lambda reported in ctx *)
 Theorem weight_shared : forall c hv tr r tr',
-  cfg_ok c -> trace_ok tr -> halves_ok hv -> collate c hv tr = Some (r, tr') ->
+  cfg_ok c -> trace_ok tr -> halves_ok hv -> collate c hv tr = Ok (r, tr') ->
   forall i, (i < bsz c)%nat ->
     (retained_fraction (img_h c) (img_w c) (nth i (imgs r) Keep) == lam_of r i)%Q /\
     (forall ls, labs r = Some ls -> (snd (nth i ls (0%nat, 0%Q)) == lam_of r i)%Q).
@@ -25,7 +25,7 @@ Print Assumptions weight_shared.
 
 (* every pasted box lies inside the image: 0 <= top <= bot <= h, 0 <= left <= right <= w *)
 Theorem bbox_in_bounds : forall c hv tr r tr',
-  trace_ok tr -> halves_ok hv -> collate c hv tr = Some (r, tr') ->
+  trace_ok tr -> halves_ok hv -> collate c hv tr = Ok (r, tr') ->
   forall i p b, (i < bsz c)%nat -> nth i (imgs r) Keep = Cut p b -> box_in_bounds (img_h c) (img_w c) b.
 Proof. exact bbox_in_bounds_l. Qed.
 Print Assumptions bbox_in_bounds.
@@ -39,14 +39,14 @@ Print Assumptions lambda_adjusted_is_area_fraction.
 
 (* the weight reported in the context is a weight: inside [0,1] *)
 Theorem lambda_in_unit_interval : forall c hv tr r tr',
-  cfg_ok c -> trace_ok tr -> halves_ok hv -> collate c hv tr = Some (r, tr') ->
+  cfg_ok c -> trace_ok tr -> halves_ok hv -> collate c hv tr = Ok (r, tr') ->
   forall i, (i < bsz c)%nat -> (0 <= lam_of r i)%Q /\ (lam_of r i <= 1)%Q.
 Proof. exact lambda_in_unit_l. Qed.
 Print Assumptions lambda_in_unit_interval.
 
 (* mixed rows of a matrix of probability vectors (one-hot rows in particular) are probability vectors *)
 Theorem rows_sum_to_one : forall c hv tr r tr' Y,
-  cfg_ok c -> trace_ok tr -> halves_ok hv -> collate c hv tr = Some (r, tr') ->
+  cfg_ok c -> trace_ok tr -> halves_ok hv -> collate c hv tr = Ok (r, tr') ->
   label_matrix_ok (bsz c) Y ->
   forall ls, labs r = Some ls -> forall i, (i < bsz c)%nat ->
     let row := render_label Y i (nth i ls (0%nat, 0%Q)) in
@@ -57,7 +57,7 @@ Print Assumptions rows_sum_to_one.
 (* the partner is the one the shuffle mode prescribes: roll (i-1) mod B, flip B-1-i, random perm[i] for the
    ONE permutation drawn in this call (a permutation of 0..B-1); B = 1: the sample itself *)
 Theorem p_follows_mode : forall c hv tr r tr',
-  trace_ok tr -> collate c hv tr = Some (r, tr') ->
+  trace_ok tr -> collate c hv tr = Ok (r, tr') ->
   exists perm, (shuf c = Random -> bsz c <> 1%nat -> In (DPerm perm) tr /\ Permutation perm (seq 0 (bsz c))) /\
     forall i, (i < bsz c)%nat ->
       partner_of (nth i (imgs r) Keep) = Some (mode_partner (shuf c) (bsz c) perm i) /\
@@ -67,18 +67,76 @@ Print Assumptions p_follows_mode.
 
 (* every item of the batch tuple whose name is neither x nor class is returned unchanged, the tuple keeps its length
    (single-item mode 'x': the batch is the image tensor itself, Model.set_item returns the value) *)
-Theorem other_items_untouched : forall c hv batch tr ob r tr',
-  collate_batch c hv batch tr = Some ((ob, r), tr') ->
+Theorem other_items_untouched : forall c hv Y batch ctx tr ob ctx' r tr',
+  collate_batch c hv Y batch ctx tr = Ok ((ob, ctx', r), tr') ->
   (length (tokens c) > 1)%nat ->
   length ob = length batch /\
   forall j t, nth_error (tokens c) j = Some t -> t <> TX -> t <> TClass -> nth_error ob j = nth_error batch j.
 Proof. exact other_items_untouched_l. Qed.
 Print Assumptions other_items_untouched.
 
+(* the context: every entry the dataset recorded (collated before this collator, any key other than the collator's
+   own three) is returned as it was; "apply", "use_cutmix", "lambda" hold what was used *)
+Theorem ctx_entries_untouched_and_reported : forall c hv Y batch ctx tr ob ctx' r tr',
+  collate_batch c hv Y batch ctx tr = Ok ((ob, ctx', r), tr') ->
+  (forall k, ctx_get (KUser k) ctx' = ctx_get (KUser k) ctx) /\
+  ctx_get KApply ctx' = Some (VBools (ctx_apply r)) /\
+  ctx_get KCutmix ctx' = Some (VBools (ctx_cutmix r)) /\
+  ctx_get KLambda ctx' = Some (VLams (ctx_lambda r)).
+Proof. exact ctx_entries_l. Qed.
+Print Assumptions ctx_entries_untouched_and_reported.
+
+(* ---------- size of the pasted box ---------- *)
+(* Spec.half_spec (integer square root of floor((1-lambda) h^2 / 4)) IS floor(0.5*sqrt(1-lambda)*h): it satisfies the
+   defining inequalities 4 hh^2 <= (1-lambda) h^2 < 4 (hh+1)^2, and only one integer does *)
+Theorem half_spec_correct : forall lam h, (lam <= 1)%Q -> half_ok lam h (half_spec lam h).
+Proof. exact half_spec_correct_l. Qed.
+Print Assumptions half_spec_correct.
+
+Theorem half_ok_unique : forall lam h a b, half_ok lam h a -> half_ok lam h b -> a = b.
+Proof. exact half_ok_unique_l. Qed.
+Print Assumptions half_ok_unique.
+
+(* before clipping the box covers the fraction 1 - lambda of the image up to the floor error: never more, and less by
+   at most 2/h + 2/w + 4/(h w) *)
+Theorem unclipped_box_area_close_to_one_minus_lambda : forall lam h w hh wh,
+  0 < h -> 0 < w -> (0 <= lam)%Q -> (lam <= 1)%Q -> half_ok lam h hh -> half_ok lam w wh ->
+  (unclipped_fraction h w hh wh <= 1 - lam)%Q /\
+  (1 - lam - unclipped_fraction h w hh wh < (2 # 1) / inject_Z h + (2 # 1) / inject_Z w + (4 # 1) / inject_Z (h * w))%Q.
+Proof. exact unclipped_box_area_l. Qed.
+Print Assumptions unclipped_box_area_close_to_one_minus_lambda.
+
+(* hence the corrected weight (Model.lamb_adjusted of the clamped box, which is what label and ctx use) is never below
+   the drawn lambda, and for a box that does not touch the border it exceeds it by less than the floor error *)
+Theorem corrected_lambda_close_to_drawn : forall lam h w ch cw hh wh,
+  0 < h -> 0 < w -> (0 <= lam)%Q -> (lam <= 1)%Q -> half_ok lam h hh -> half_ok lam w wh ->
+  0 <= ch < h -> 0 <= cw < w ->
+  (lam <= lamb_adjusted h w (clamp_box h w ch cw (hh, wh)))%Q /\
+  (hh <= ch -> ch + hh <= h -> wh <= cw -> cw + wh <= w ->
+   (lamb_adjusted h w (clamp_box h w ch cw (hh, wh)) - lam
+    < (2 # 1) / inject_Z h + (2 # 1) / inject_Z w + (4 # 1) / inject_Z (h * w))%Q).
+Proof. exact corrected_lambda_close_l. Qed.
+Print Assumptions corrected_lambda_close_to_drawn.
+
+(* ---------- what is rejected ---------- *)
+(* every exception is the explicit rejection of an input outside the domain: an odd batch under flip, labels that are
+   neither rows nor scalars in [0,1], images that are not (C, H, W) where a box is needed, integer images where a
+   mixup is needed, 0-d samples, no image item (Proofs.explained; EDraw / EItem are artefacts of the model) *)
+Theorem errors_explained : forall c hv Y batch ctx tr e,
+  collate_batch c hv Y batch ctx tr = Err e -> explained c Y e.
+Proof. exact errors_explained_l. Qed.
+Print Assumptions errors_explained.
+
+(* ... and inside the domain (Proofs.in_domain) nothing is rejected *)
+Theorem in_domain_not_rejected : forall c hv Y batch ctx tr e,
+  in_domain c Y -> collate_batch c hv Y batch ctx tr = Err e -> e = EDraw \/ e = EItem.
+Proof. exact in_domain_not_rejected_l. Qed.
+Print Assumptions in_domain_not_rejected.
+
 (* ---------- non-vacuity: the premises are satisfiable and the interesting branches are reached ---------- *)
 Definition c_ex : cfg := {| bsz := 3; img_h := 4; img_w := 6; mixup_p := 1 # 2; cutmix_p := 1 # 2; total_p := 1;
   mixup_alpha := Some (4 # 5); cutmix_alpha := Some 1%Q; apply_mode := PerSample; lamb_mode := PerSample;
-  shuf := Random; tokens := [TIndex; TX; TClass] |}.
+  shuf := Random; tokens := [TIndex; TX; TClass]; x_rank := 3; x_float := true; lab_ndim := 2 |}.
 Definition tr_ex : trace :=
   [DUnits [1 # 3; 0; 9 # 10]%Q; DUnits [1 # 4; 3 # 4; 0]%Q; DBetas (4 # 5) [1 # 2; 1 # 3; 1]%Q;
    DBetas 1 [1 # 5; 1 # 2; 0]%Q; DInts 4 [0; 3; 2]; DInts 6 [5; 0; 3]; DPerm [1; 0; 2]%nat].
@@ -93,18 +151,45 @@ Proof.
 Qed.
 
 Example collate_example :
-  exists r, collate c_ex hv_ex tr_ex = Some (r, []) /\
+  exists r, collate c_ex hv_ex tr_ex = Ok (r, []) /\
     imgs r = [Cut 1 (0, 3, 1, 6); Mix 0 (1 # 3); Cut 2 (0, 0, 4, 6)] /\
     labs r = Some [(1%nat, 1 - 3 / 24); (0%nat, 1 # 3); (2%nat, 1 - 24 / 24)]%Q.
 Proof. eexists. split; [vm_compute; reflexivity|]. split; reflexivity. Qed.
 
+Definition Y_ex : list (list Q) := [[1; 0; 0]; [0; 1; 0]; [0; 0; 1]]%Q.
 Example collate_batch_example :
-  exists r tr', collate_batch c_ex hv_ex [IOther [7; 8; 9]; IOther []; IOther []] tr_ex = Some ((
+  exists r tr', collate_batch c_ex hv_ex Y_ex [IOther [7; 8; 9]; IOther []; IOther []] [(KUser 0, VRaw [4; 5; 6])] tr_ex = Ok ((
      [IOther [7; 8; 9]; IX [Cut 1 (0, 3, 1, 6); Mix 0 (1 # 3); Cut 2 (0, 0, 4, 6)];
-      IY [(1%nat, 21 # 24); (0%nat, 1 # 3); (2%nat, 0 # 24)]], r), tr').
+      IY [(1%nat, 21 # 24); (0%nat, 1 # 3); (2%nat, 0 # 24)] 2],
+     [(KUser 0, VRaw [4; 5; 6]); (KApply, VBools [true; true; true]); (KCutmix, VBools [true; false; true]);
+      (KLambda, VLams [21 # 24; 1 # 3; 0 # 24])], r), tr').
 Proof. eexists. eexists. vm_compute. reflexivity. Qed.
 
-Example label_matrix_example : label_matrix_ok 3 [[1; 0; 0]; [0; 1; 0]; [0; 0; 1]]%Q.
+(* the half sizes of the example are the prescribed ones for the drawn lambdas 1/5, 1/2, 0 on a 4 x 6 image
+   (0.5*sqrt(0.8)*4 = 1.78.., 0.5*sqrt(0.8)*6 = 2.68.., ..., 0.5*sqrt(1)*6 = 3) *)
+Example half_spec_example :
+  map (fun l => (half_spec l 4, half_spec l 6)) [1 # 5; 1 # 2; 0]%Q = hv_ex.
+Proof. vm_compute. reflexivity. Qed.
+
+(* rejections: an odd batch under flip, class indices as labels, a 3-d batch (no channel) that needs a box, an integer
+   image that needs a mixup *)
+Example rejections :
+  (exists e, collate_batch {| bsz := 3; img_h := 4; img_w := 4; mixup_p := 1; cutmix_p := 0; total_p := 1;
+      mixup_alpha := Some 1%Q; cutmix_alpha := None; apply_mode := PerBatch; lamb_mode := PerBatch; shuf := Flip;
+      tokens := [TX; TClass]; x_rank := 3; x_float := true; lab_ndim := 2 |} [] Y_ex [IOther []; IOther []] []
+      [DUnit 0; DUnit (1 # 2); DBeta 1 (1 # 2)] = Err e /\ e = EAssertFlip) /\
+  (exists e, collate_batch (Build_cfg 2 4 4 1 0 1 (Some 1%Q) None PerBatch PerBatch Roll [TX; TClass] 3 true 1)
+      [] [[0]; [2]]%Q [IOther []; IOther []] [] [] = Err e /\ e = EAssertLabel) /\
+  (exists e, collate_batch (Build_cfg 2 4 4 0 1 1 None (Some 1%Q) PerBatch PerBatch Roll [TX] 2 true 2)
+      [(1, 1)] [] [IOther []] [] [DUnit 0; DUnit 0; DBeta 1 (1 # 2)] = Err e /\ e = EUnpack) /\
+  (exists e, collate_batch (Build_cfg 2 4 4 1 0 1 (Some 1%Q) None PerBatch PerBatch Roll [TX] 3 false 2)
+      [] [] [IOther []] [] [DUnit 0; DUnit 0; DBeta 1 (1 # 2)] = Err e /\ e = ECast).
+Proof. repeat split; eexists; (split; [vm_compute; reflexivity|reflexivity]). Qed.
+
+Example in_domain_example : in_domain c_ex Y_ex.
+Proof. repeat split; try reflexivity. intro H. discriminate. Qed.
+
+Example label_matrix_example : label_matrix_ok 3 Y_ex.
 Proof.
   exists 3%nat. intros k Hk. destruct k as [|[|[|k]]]; try lia; simpl;
     (split; [reflexivity|split; [reflexivity|repeat constructor; unfold Qle; simpl; lia]]).
